@@ -139,7 +139,12 @@ def run(ctx):
             if got[1] != 'ZincParseException':
                 ctx.violation('impl-counterexample', 'grid parsing raised %s instead of ZincParseException' % got[1], rep)
                 return
-            if not within(text, got[2], got[3]):
+            # line / column are documented as relative to the grid the exception carries (e.grid_str): one grid of the document
+            gtext = got[4] if len(got) > 4 and isinstance(got[4], str) else text
+            if gtext.rstrip('\n') not in text and gtext not in text + '\n':
+                ctx.violation('impl-counterexample', 'ZincParseException carries a grid text that is not part of the document', rep)
+                return
+            if not within(gtext, got[2], got[3]):
                 ctx.violation('impl-counterexample', 'ZincParseException reports line %s col %s outside the text' % (got[2], got[3]), rep)
                 return
         ctx.count('outcome:' + ('grid' if got[0] == 'ok' else 'ZincParseException'))
